@@ -4,7 +4,7 @@
    (heap, objects, registers, cache, generator) and every operation/history of Model/Purity.v.
    Scope: they are statements about the aliasing facts written into the model (alias / copy /
    in-place write per operation); those facts are what the history correspondence observes. *)
-From LV Require Import Lib.Base Model.Purity Proofs.PurityP Proofs.PurityConfP.
+From LV Require Import Lib.Base Model.Purity Proofs.PurityP Proofs.PurityConfP Proofs.PurityDeepP.
 
 (* (a) frame: a call assigns only into buffers that are fresh or documented as in-place for it;
    hence every buffer that existed before and is not documented in-place is byte-identical afterwards *)
@@ -142,6 +142,68 @@ Theorem C10_reachable_states_are_valid :
   forall (K : kernels) (s : state), reachable K s -> inv s.
 Proof. exact reachable_inv. Qed.
 Print Assumptions C10_reachable_states_are_valid.
+
+(* ---- refusal paths: which calls raise, and what a refused call leaves behind ---- *)
+(* a call that raises (read-only destination, NotImplementedError, bad argument) changes no object, no existing buffer
+   and not the generator, rebinds nothing and returns nothing (only the private coordinate cache may have been filled) *)
+Theorem C10_refused_call_changes_nothing :
+  forall (K : kernels) (s : state) (o : op),
+  o_status (snd (step K s o)) <> 0 ->
+  ob (fst (step K s o)) = ob s /\
+  (forall i, (i < length (hp s))%nat -> hget (hp (fst (step K s o))) i = hget (hp s) i) /\
+  rng (fst (step K s o)) = rng s /\
+  env (fst (step K s o)) = env s ++ [VNone] /\
+  o_res (snd (step K s o)) = VNone /\ o_owrites (snd (step K s o)) = [].
+Proof. exact step_refused. Qed.
+Print Assumptions C10_refused_call_changes_nothing.
+
+(* the read-only ValueError is raised only by ONE attempted assignment, into a target that is documented as in-place
+   for that call and is read-only: no call trips over a frozen array it has no business writing *)
+Theorem C10_read_only_refusal_only_for_documented_target :
+  forall (K : kernels) (s : state) (o : op),
+  inv s -> o_status (snd (step K s o)) = 1 ->
+  exists a, o_writes (snd (step K s o)) = [a] /\ In a (documented s o) /\ frozen_at s a = true.
+Proof. exact step_readonly. Qed.
+Print Assumptions C10_read_only_refusal_only_for_documented_target.
+
+(* NotImplementedError: only propagate_fft, and only for a wavefront that carries fitted tilt *)
+Theorem C10_not_implemented_only_for_fft_of_tilted_wavefront :
+  forall (K : kernels) (s : state) (o : op),
+  o_status (snd (step K s o)) = 4 ->
+  exists w scr jw fs, o = OPropFft w scr /\ getobj s w = Some (jw, Wave fs) /\ has_tilt fs = true.
+Proof. exact step_notimpl. Qed.
+Print Assumptions C10_not_implemented_only_for_fft_of_tilted_wavefront.
+
+(* ---- identity of results ---- *)
+(* a plane / wavefront / spectrum result is a NEW object, except fit_tilt(inplace=True) and Image.fit_tilt, which are
+   specified to return their argument *)
+Theorem C10_result_object_is_new_unless_specified :
+  forall (K : kernels) (s : state) (o : op) (j : oid),
+  o_res (snd (step K s o)) = VObj j -> j = length (ob s) \/ returns_self s o = Some j.
+Proof. exact step_res_object. Qed.
+Print Assumptions C10_result_object_is_new_unless_specified.
+
+(* copy, rescale/resample and fit_tilt(inplace=False) of a non-Image plane hand back a new plane made of new buffers
+   only: with C10_frame, nothing done to the result can reach the original *)
+Theorem C10_new_planes_share_nothing :
+  forall (K : kernels) (s : state) (o : op),
+  makes_new_plane s o = true -> o_status (snd (step K s o)) = 0 ->
+  o_res (snd (step K s o)) = VObj (length (ob s)) /\
+  forall i, In i (res_slots (fst (step K s o)) (VObj (length (ob s)))) -> (length (hp s) <= i)%nat.
+Proof. exact step_new_plane. Qed.
+Print Assumptions C10_new_planes_share_nothing.
+
+(* non-vacuity of the five statements above: a poke of a read-only array is refused (status 1) and leaves everything;
+   propagate_fft of a tilted wavefront is status 4; Image.fit_tilt returns its argument, copy a new plane on new buffers *)
+Example C10_deepen_nonvacuous :
+  let K := mkkernels (fun c args _ => match args with a :: _ => map (Z.add c) a | [] => [c; c] end)
+                     (fun _ _ _ => (1, 2)) (fun r => r + 1) in
+  let ops := [ONewArr 4 true; OPoke 0; OWave (Some (1, 2)); OPropFft 2 None;
+              OPlane 2 (Some 0%nat) (Some 0%nat) None 1; OFitTilt 4 false; OCopy 4] in
+  map (fun x => (o_status (snd (snd x)), o_res (snd (snd x)))) (trace K init ops)
+    = [(0, VArr 0%nat); (1, VNone); (0, VObj 0%nat); (4, VNone); (0, VObj 1%nat); (0, VObj 1%nat); (0, VObj 2%nat)] /\
+  match nth_error (trace K init ops) 6 with Some (pre, o, _) => makes_new_plane pre o | None => false end = true.
+Proof. vm_compute. split; reflexivity. Qed.
 
 (* non-vacuity: a concrete history (two arrays, a plane on them, in-place tilt fit - which rebinds the plane's opd and
    writes no buffer -, two dft2 of the same shape, the second into an output buffer) is reachable, fills the cache, and performs exactly the documented writes *)
